@@ -24,6 +24,18 @@ fn main() {
         ser::ser_child(&args[2]);
         return;
     }
+    if args.len() >= 6 && args[1] == "PROBE" {
+        // adbharness PROBE <rule> <url> <source> <type>: ad-hoc look at one rule and one request
+        let f = adblock::filters::network::NetworkFilter::parse(&args[2], true, Default::default());
+        println!("rule: {:?}", f.as_ref().map(|f| net::dump_rule(f, false)));
+        let q = net::make_req(&args[3], &args[4], &args[5]);
+        println!("request: {:?}", q.as_ref().map(|q| q.dump.clone()));
+        if let (Ok(f), Some(q)) = (f, q) {
+            let mut pr = net::PRule { line: args[2].clone(), f: Box::new(f), rm: Default::default() };
+            println!("matches: {}", pr.matches(&q.req));
+        }
+        return;
+    }
     if args.len() < 5 {
         eprintln!("usage: adbharness <PROP> <seed> <n> <outdir>");
         std::process::exit(2);
